@@ -146,7 +146,7 @@ def body(chk):
         for run in res["runs"]:
             key = f"{c['origin']}:{c.get('level') or c.get('kind')}:{shape}:{what}:rpc={c.get('rpc')}"
             chk.count(1, key + ":" + run["fs"])
-            if run["open_s"] > 20:
+            if run["open_s"] > 120:
                 slow += 1
                 chk.violation(f"slow:{key}", f"open took {run['open_s']} s on {run['fs']}", {"case": c})
             if run["open"] == "error:TookTooLong":
